@@ -316,12 +316,60 @@ func c09JsGaps(src []byte, toks []c09JsTok) ([]c09JsGap, []int, bool) {
 		starts[i] = pos
 		pos += len(t.Text)
 	}
-	if rest := bytes.TrimRight(src[pos:], " \t\n\r"); len(rest) > 0 {
-		if !(bytes.HasPrefix(rest, []byte("/*")) || bytes.HasPrefix(rest, []byte("//"))) {
+	if pos < len(src) {
+		rest := bytes.TrimLeft(src[pos:], " \t\n\r")
+		if len(rest) > 0 && !(bytes.HasPrefix(rest, []byte("/*")) || bytes.HasPrefix(rest, []byte("//"))) {
 			return nil, nil, false
 		}
+		gaps = append(gaps, c09JsGap{A: len(toks) - 1, B: len(toks), Text: string(src[pos:])})
 	}
 	return gaps, starts, true
+}
+
+// c09JsCommentsOf splits a gap that consists of comments only (`/* */`, `// …\n`) into its comments
+func c09JsCommentsOf(gap string) ([]string, bool) {
+	var out []string
+	for len(gap) > 0 {
+		switch {
+		case strings.HasPrefix(gap, "/*"):
+			j := strings.Index(gap[2:], "*/")
+			if j < 0 {
+				return nil, false
+			}
+			out = append(out, gap[:j+4])
+			gap = gap[j+4:]
+		case strings.HasPrefix(gap, "//"):
+			j := strings.IndexByte(gap, '\n')
+			if j < 0 {
+				return nil, false
+			}
+			out = append(out, gap[:j])
+			gap = gap[j+1:]
+		default:
+			return nil, false
+		}
+	}
+	return out, len(out) > 0
+}
+
+// c09JsEmitRequest: the tokens of the output (with the kept comments as pseudo tokens) for `model.c09.js.emit`
+func c09JsEmitRequest(toks []c09JsTok, gaps []c09JsGap) string {
+	before := map[int][]string{}
+	for _, g := range gaps {
+		if cs, ok := c09JsCommentsOf(g.Text); ok {
+			before[g.B] = cs
+		}
+	}
+	var items [][]byte
+	for i := 0; i <= len(toks); i++ {
+		for _, c := range before[i] {
+			items = append(items, append([]byte{'c'}, c...))
+		}
+		if i < len(toks) {
+			items = append(items, append([]byte{toks[i].K}, toks[i].Text...))
+		}
+	}
+	return "model.c09.js.emit " + h.List(items)
 }
 
 func c09JsIsIdByte(c byte) bool {
@@ -1232,6 +1280,8 @@ func c09JsStages(c *Ctx) error {
 		return err
 	}
 	observed := map[string]string{} // known id -> what the replay showed
+	var emitLines []string
+	var emitIdx []int
 	fail := func(cs *c09JsCase, kind, what, detail, sig string) {
 		if id, ok := openSig[sig]; ok && sig != "" {
 			c.R.ExcludedKnown++
@@ -1320,6 +1370,8 @@ func c09JsStages(c *Ctx) error {
 		} else if cs.known != "" {
 			observed[cs.known] = ""
 		}
+		emitIdx = append(emitIdx, i)
+		emitLines = append(emitLines, c09JsEmitRequest(lean, gaps))
 		gapAt := map[int]c09JsGap{}
 		for _, g := range gaps {
 			gapAt[g.B] = g
@@ -1343,6 +1395,33 @@ func c09JsStages(c *Ctx) error {
 			} else if cl := c09JsClassifyTight(a, b); cl != "" {
 				st.Tag("hazard=" + cl)
 			}
+		}
+	}
+	// (ii) the writer model reproduces every spacing decision of the real printer
+	emitReplies, err := h.Eval(emitLines)
+	if err != nil {
+		return err
+	}
+	for j, rep := range emitReplies {
+		cs := live[emitIdx[j]]
+		b, ok, msg := h.DecodeReply(rep)
+		if !ok {
+			fail(cs, "diff", "model.c09.js.emit failed", msg, "")
+			continue
+		}
+		if bytes.Equal(b, cs.out) {
+			st.Tag("writer-model=same")
+		} else {
+			st.Tag("writer-model=differs")
+			k := 0
+			for k < len(b) && k < len(cs.out) && b[k] == cs.out[k] {
+				k++
+			}
+			lo := k - 30
+			if lo < 0 {
+				lo = 0
+			}
+			fail(cs, "diff", "the writer model (model.c09.js.emit) does not reproduce the output from its tokens", fmt.Sprintf("at byte %d: impl %s model %s", k, h.Q(trunc(cs.out[lo:], 80)), h.Q(trunc(b[lo:], 80))), "")
 		}
 	}
 	for _, k := range known {
